@@ -1106,9 +1106,19 @@ class Agent(dbus.service.Object):
             self.__logger.error('Rejecting non-secured extension map')
             return
 
+        listen_valid = False
         if ExtensionKey.SENDER_LISTEN in extmap:
-            interval_ms = int(extmap[ExtensionKey.SENDER_LISTEN])
+            interval_ms = extmap[ExtensionKey.SENDER_LISTEN]
             node_id = extmap.get(ExtensionKey.SENDER_NODEID, '')
+            # these values come from the peer and are passed on as D-Bus int32 and string
+            listen_valid = (
+                isinstance(interval_ms, int) and 0 <= interval_ms < 2 ** 31
+                and isinstance(node_id, str)
+            )
+            if not listen_valid:
+                self.__logger.error('Ignoring invalid Sender Listen of %s from %s', interval_ms, node_id)
+
+        if listen_valid:
             self.__logger.info('Sender Listen for %d ms from %s', interval_ms, node_id)
 
             data = cbor2.dumps({
